@@ -7,6 +7,7 @@ import (
 	"fmt"
 	"io"
 	"reflect"
+	"sort"
 	"time"
 	"unicode/utf8"
 
@@ -309,6 +310,11 @@ func (e *encoder) encodeFile(file reflect.Value) error {
 						for _, f := range mfields {
 							def.fields = append(def.fields, f)
 						}
+						// Map iteration order is random: sort for
+						// a deterministic encoding.
+						sort.Slice(def.fields, func(i, j int) bool {
+							return def.fields[i].num < def.fields[j].num
+						})
 						err := e.writeDefMesg(def)
 						if err != nil {
 							return err
